@@ -400,6 +400,92 @@ fn check_diags(src: &str, d: &Diagnostics<'_>, stage: &str) -> Result<(), (Strin
     Ok(())
 }
 
+/// Height (in nodes: statements, blocks' statements, expressions) of the tree the parser builds
+/// for `src`, or None if the parser reports any diagnostic. Iterative, so a very tall accepted
+/// tree cannot overflow the harness itself.
+pub fn parsed_tree_height(ctx: &Ctx, src: &str) -> Result<Option<usize>, String> {
+    use naijascript::syntax::parser::{Block, Expr, Stmt};
+    ctx.reset();
+    let arena = &ctx.main;
+    let r = catch_unwind(AssertUnwindSafe(|| {
+        let lexer = Lexer::new(src, arena);
+        let mut parser = Parser::new(lexer, arena);
+        let (root, perr) = parser.parse_program();
+        if !perr.diagnostics.is_empty() {
+            return None;
+        }
+        enum N<'a> {
+            B(&'a Block<'a>),
+            S(&'a Stmt<'a>),
+            E(&'a Expr<'a>),
+        }
+        let mut max = 0usize;
+        let mut stack: Vec<(N<'_>, usize)> = vec![(N::B(root), 0)];
+        while let Some((n, d)) = stack.pop() {
+            max = max.max(d);
+            match n {
+                N::B(b) => {
+                    for s in b.stmts {
+                        stack.push((N::S(s), d + 1));
+                    }
+                }
+                N::S(s) => match s {
+                    Stmt::FunctionDef { body, .. } => stack.push((N::B(body), d)),
+                    Stmt::Assign { expr, .. } | Stmt::AssignExisting { expr, .. } | Stmt::Expression { expr, .. } => stack.push((N::E(expr), d + 1)),
+                    Stmt::AssignIndex { target, expr, .. } => {
+                        stack.push((N::E(target), d + 1));
+                        stack.push((N::E(expr), d + 1));
+                    }
+                    Stmt::If { cond, then_b, else_b, .. } => {
+                        stack.push((N::E(cond), d + 1));
+                        stack.push((N::B(then_b), d));
+                        if let Some(e) = else_b {
+                            stack.push((N::B(e), d));
+                        }
+                    }
+                    Stmt::Loop { cond, body, .. } => {
+                        stack.push((N::E(cond), d + 1));
+                        stack.push((N::B(body), d));
+                    }
+                    Stmt::Block { block, .. } => stack.push((N::B(block), d)),
+                    Stmt::Return { expr, .. } => {
+                        if let Some(e) = expr {
+                            stack.push((N::E(e), d + 1));
+                        }
+                    }
+                    Stmt::Break { .. } | Stmt::Continue { .. } => {}
+                },
+                N::E(e) => match e {
+                    Expr::Index { array, index, .. } => {
+                        stack.push((N::E(array), d + 1));
+                        stack.push((N::E(index), d + 1));
+                    }
+                    Expr::Binary { lhs, rhs, .. } => {
+                        stack.push((N::E(lhs), d + 1));
+                        stack.push((N::E(rhs), d + 1));
+                    }
+                    Expr::Call { callee, args, .. } => {
+                        stack.push((N::E(callee), d + 1));
+                        for a in args.args {
+                            stack.push((N::E(a), d + 1));
+                        }
+                    }
+                    Expr::Array { elements, .. } => {
+                        for a in *elements {
+                            stack.push((N::E(a), d + 1));
+                        }
+                    }
+                    Expr::Unary { expr, .. } => stack.push((N::E(expr), d + 1)),
+                    Expr::Member { object, .. } => stack.push((N::E(object), d + 1)),
+                    Expr::String { .. } | Expr::Number(..) | Expr::Var(..) | Expr::Bool(..) | Expr::Null(..) => {}
+                },
+            }
+        }
+        Some(max)
+    }));
+    r.map_err(|_| format!("front-end-panic: {}", take_panic()))
+}
+
 /// The lexer on its own (token spans, progress, its diagnostics' spans) — for texts too long to
 /// push through the parser's diagnostics rendering.
 pub fn lexer_total(ctx: &Ctx, src: &str) -> Result<FrontStats, (String, String)> {
